@@ -25,6 +25,7 @@ def main():
                 res = mod.run_case(case) or {}
             except Exception:
                 res = {"harness_error": traceback.format_exc()}
+            purity.poison()   # the case has been judged: its result arrays are overwritten (see vlib.purity)
             pv, pc = purity.drain()
             if pv and "harness_error" not in res:
                 res.setdefault("violations", []).extend(pv)
